@@ -71,3 +71,102 @@ fn n_find_header_window_limit() {
     }
     std::println!("n_find_header_window_limit: {cases} cases");
 }
+
+// ---------------------------------------------------------------------------------
+// BOUNDED NATIVE STAND-IN for C11 "each typed getter returns the FIRST tag of its type in
+// walk order and nothing when absent" at tag counts beyond the Kani harnesses (which explore
+// regions of at most 48 bytes): `get_tag` is `iter().find(..).map(cast)` -- iterator adapters
+// with closures, outside this Verus.  Real `Multiboot2Header::load` + all ten typed getters on
+// headers with k filler tags (k up to 1100, i.e. headers beyond 8192 bytes) in front of two
+// tags of the wanted kind, and on headers without the wanted kind.
+// ---------------------------------------------------------------------------------
+fn push_tag(v: &mut Vec<u8>, typ: u16, size: u32, marker: u32) {
+    let start = v.len();
+    v.extend_from_slice(&typ.to_le_bytes());
+    v.extend_from_slice(&0u16.to_le_bytes());
+    v.extend_from_slice(&size.to_le_bytes());
+    while v.len() < start + size as usize {
+        v.push(0);
+    }
+    if size >= 12 {
+        v[start + 8..start + 12].copy_from_slice(&marker.to_le_bytes());
+    }
+    while v.len() % 8 != 0 {
+        v.push(0);
+    }
+}
+
+fn getter_addr(h: &Multiboot2Header, typ: u16) -> Option<usize> {
+    fn a<T: ?Sized>(t: Option<&T>) -> Option<usize> {
+        t.map(|t| t as *const T as *const u8 as usize)
+    }
+    match typ {
+        1 => a(h.information_request_tag()),
+        2 => a(h.address_tag()),
+        3 => a(h.entry_address_tag()),
+        4 => a(h.console_flags_tag()),
+        5 => a(h.framebuffer_tag()),
+        6 => a(h.module_align_tag()),
+        7 => a(h.efi_boot_services_tag()),
+        8 => a(h.entry_address_efi32_tag()),
+        9 => a(h.entry_address_efi64_tag()),
+        _ => a(h.relocatable_tag()),
+    }
+}
+
+#[test]
+fn n_hdr_getters_many_tags() {
+    const KINDS: [(u16, u32); 10] = [(1, 12), (2, 24), (3, 12), (4, 12), (5, 20), (6, 8), (7, 8), (8, 12), (9, 12), (10, 24)];
+    let mut cases = 0u32;
+    for &(typ, size) in KINDS.iter() {
+        for &k in &[0usize, 1, 2, 5, 9, 10, 11, 12, 13, 20, 40, 100, 600, 1100] {
+            for present in [true, false] {
+                // fillers: cycle through the OTHER kinds
+                let mut body: Vec<u8> = Vec::new();
+                let mut n = 0;
+                let mut f = 0;
+                while n < k {
+                    let (ft, fs) = KINDS[f % KINDS.len()];
+                    f += 1;
+                    if ft == typ {
+                        continue;
+                    }
+                    push_tag(&mut body, ft, fs, 0x1111_0000 + n as u32);
+                    n += 1;
+                }
+                let first_off = 16 + body.len();
+                if present {
+                    push_tag(&mut body, typ, size, 0);
+                    push_tag(&mut body, 6 + (typ == 6) as u16, 8, 0);
+                    push_tag(&mut body, typ, size, 1);
+                }
+                push_tag(&mut body, 0, 8, 0);
+                let length = (16 + body.len()) as u32;
+                let mut img: Vec<u64> = std::vec![0u64; (length as usize + 7) / 8];
+                let bytes = unsafe { core::slice::from_raw_parts_mut(img.as_mut_ptr().cast::<u8>(), length as usize) };
+                bytes[0..4].copy_from_slice(&0xE852_50D6u32.to_le_bytes());
+                bytes[4..8].copy_from_slice(&0u32.to_le_bytes());
+                bytes[8..12].copy_from_slice(&length.to_le_bytes());
+                let cks = 0u32.wrapping_sub(0xE852_50D6).wrapping_sub(0).wrapping_sub(length);
+                bytes[12..16].copy_from_slice(&cks.to_le_bytes());
+                bytes[16..].copy_from_slice(&body);
+                let base = bytes.as_ptr() as usize;
+                let h = unsafe { Multiboot2Header::load(bytes.as_ptr().cast()) }.expect("valid header must load");
+                let walk: Vec<(usize, u16)> = h.iter().map(|t| (t as *const _ as *const u8 as usize - base, t.header().typ() as u16)).collect();
+                assert_eq!(walk.len(), k + if present { 3 } else { 0 } + 1, "walk length (kind {typ}, {k} fillers)");
+                for &(t2, _) in KINDS.iter() {
+                    let want = walk.iter().find(|(_, t)| *t == t2).map(|(o, _)| base + *o);
+                    let got = getter_addr(&h, t2);
+                    assert_eq!(got, want, "getter of kind {t2}: first tag of that type in walk order (target kind {typ}, {k} fillers, present {present})");
+                }
+                if present {
+                    assert_eq!(getter_addr(&h, typ), Some(base + first_off));
+                } else {
+                    assert_eq!(getter_addr(&h, typ), None);
+                }
+                cases += 1;
+            }
+        }
+    }
+    std::println!("n_hdr_getters_many_tags: {cases} cases");
+}
